@@ -266,6 +266,16 @@ def lane_balance(a, spec):
                 a.n += 1
                 a.inc("balances_compared")
                 want = sum(v for (v, k) in led.values() if k in wallet.keypairs)
+                if want > 2 and rng.random() < 0.4:
+                    # the wallet object has built a spend that is still pending (not in the chain): what the chain pays its keys,
+                    # and therefore its balance at this head, is unchanged
+                    try:
+                        from skepticoin.signing import SECP256k1PublicKey
+                        wm.create_spend_transaction(wallet, world.cs, rng.randrange(1, want), 0, SECP256k1PublicKey(world.keys[0][1]),
+                                                    SECP256k1PublicKey(next(iter(wallet.keypairs))))
+                        a.inc("balances_asked_with_a_pending_spend")
+                    except Exception:
+                        pass
                 got = wallet.get_balance(world.cs)
                 a.digests.add(digest(head, sorted(wallet.keypairs)))
                 if want:
